@@ -46,10 +46,18 @@ def run(ctx):
 
     check_arm_purity(ctx, "E2-A", P, with_mappers(P, fns))
     check_dispatching(ctx, "E2-A", P, fns)
+    from . import spec as SP
+
+    nsp = 0
+    for f in fns:
+        if f.key != "Signature<C>::from_shares":
+            nsp += SP.check_trait_by_scheme(ctx, "E2.dispatch", P, f, ("sign", "verify", "partial_sign", "partial_verify", "aggregate_verify", "multi_sig_verify", "pop_prove", "pop_verify", "core_sign", "core_verify"))
+    ctx.floor("E2.dispatch", "(wrapper, scheme) pairs reaching the scheme's own trait method", nsp, 14)
     # 2b. keys carried through the endian-named byte codecs come back as the same scalar
     from . import codecs as C
 
     C.check_endian_delegation(ctx, P)
+    R.check_scalar_importer_rejects(ctx, "E4.import-total", P)
     # 3. exit census of the signing path
     roots = [P.fns.get(k) for k in ("SecretKey<C>::sign",)]
     reach = reachable_fns(P, [r for r in roots if r])
